@@ -294,7 +294,7 @@ func checkWrapperGetSet(p *Prog, r *Report) {
 			switch fullName(vc.Common().StaticCallee()) {
 			case "reflect.ValueOf":
 				return vc.Common().Args[0] == ssa.Value(sf.Params[2]), "stores reflect.ValueOf(v) for the given v"
-			case "reflect.(Value).Elem":
+			case "reflect.(Value).Elem", "reflect.Zero":
 				facts := factsAt(at)
 				if viaEdgeFrom != nil {
 					facts = append(facts, factsAt(viaEdgeFrom)...)
